@@ -6,6 +6,8 @@
    business: `checked_call` below adds it).  Every partial Rust operation is an explicit Panic:
    `args[i]` beyond the length, `partial_cmp(..).unwrap()` on a NaN inside the sort comparator,
    `nums.len() - 1` on an empty vector, `nums[index]` out of range.
+   State of the source: /repo at or after commit 710ac9a ("fix: median and percentile no longer
+   panic on NaN or on an empty list", the repair proposed by this property's first check run).
 
    Rust facts used (pinned by the C15 correspondence stream on every run):
      * `iter().sum::<f64>()` folds from -0.0, `iter().product::<f64>()` from 1.0
@@ -162,10 +164,18 @@ Fixpoint insert_pc (x : num) (l : list num) : outcome (list num) :=
 Definition sort_pc (l : list num) : outcome (list num) :=
   fold_left (fun acc x => do a <- acc; insert_pc x a) l (Ok []).
 
-(* ---------- median ---------- *)
+(* ---------- median ----------
+     if nums.is_empty() { return Err(..) }
+     if nums.iter().any(|n| n.is_nan()) { return Ok(Value::Number(f64::NAN)); }     (since 710ac9a)
+     nums.sort_by(|a, b| a.partial_cmp(b).unwrap());
+     let len = nums.len();
+     if len % 2 == 0 { (nums[len / 2 - 1] + nums[len / 2]) / 2.0 } else { nums[len / 2] }          *)
+Definition has_nan (nums : list num) : bool := existsb is_nan nums.
+
 Definition bi_median (args : list value) : outcome value :=
   do nums <- collect_nums_median args;
   if is_empty nums then Err
+  else if has_nan nums then Ok (VNum nnan)
   else
     do nums <- sort_pc nums;
     let len := len nums in
@@ -182,13 +192,15 @@ Definition bi_median (args : list value) : outcome value :=
      let list = args[0].as_list(heap)?;
      if !(0.0..=100.0).contains(&p) { return Err(..) }
      let mut nums = list.iter().map(|a| a.as_number()).collect::<Result<Vec<f64>>>()?;
+     if nums.is_empty() { return Err("percentile requires at least one number") }       (since 710ac9a)
+     if nums.iter().any(|n| n.is_nan()) { return Ok(Value::Number(f64::NAN)); }          (since 710ac9a)
      nums.sort_by(|a, b| a.partial_cmp(b).unwrap());
      let index = (p / 100.0 * (nums.len() - 1) as f64).round() as usize;
      Ok(Value::Number(nums[index]))
-   `nums.len() - 1` on usize: a build with overflow checks (debug) panics when the list is empty,
-   a release build wraps to 2^64-1 (and then always fails the bounds check of nums[index]).
-   [overflow_checks] selects the build; Aggregates.percentile_build_independent shows the outcome
-   does not depend on it. *)
+   `nums.len() - 1` on usize: a build with overflow checks (debug) would panic on an empty vector,
+   a release build would wrap to 2^64-1; [overflow_checks] selects the build.  Behind the new
+   is_empty guard the subtraction cannot underflow any more: Aggregates/AggPanics prove that the
+   outcome does not depend on the build (C15_percentile_build_independent). *)
 Definition usize_sub (overflow_checks : bool) (a b : Z) : outcome Z :=
   if a <? b then (if overflow_checks then Panic else Ok ((a - b) mod 2^64)) else Ok (a - b).
 
@@ -205,53 +217,15 @@ Definition bi_percentile_gen (overflow_checks : bool) (args : list value) : outc
   if negb (in_0_100 p) then Err
   else
     do nums <- mapM as_number list;
-    do nums <- sort_pc nums;
-    do len1 <- usize_sub overflow_checks (len nums) 1;
-    let index := percentile_index p len1 in
-    do x <- index_num nums index;
-    Ok (VNum x).
-Definition bi_percentile : list value -> outcome value := bi_percentile_gen false.
-
-(* ---------- the proposed repairs (fixes/C15-median-percentile-nan-empty.diff) ----------
-   median / percentile with the two added guards, transcribed from the patched source:
-     if nums.iter().any(|n| n.is_nan()) { return Ok(Value::Number(f64::NAN)); }     (both)
-     if nums.is_empty() { return Err("percentile requires at least one number") }  (percentile)
-   Until the patch is applied to /repo these are NOT the code; they are used (a) for the theorems
-   about the repaired behaviour and (b) by the correspondence on inputs of the open known-finding
-   classes, where the implementation must either still panic or behave exactly like this. *)
-Definition has_nan (nums : list num) : bool := existsb is_nan nums.
-
-Definition bi_median_fixed (args : list value) : outcome value :=
-  do nums <- collect_nums_median args;
-  if is_empty nums then Err
-  else if has_nan nums then Ok (VNum nnan)
-  else
-    do nums <- sort_pc nums;
-    let len := len nums in
-    if (len mod 2 =? 0) then
-      do a <- index_num nums (len / 2 - 1);
-      do b <- index_num nums (len / 2);
-      Ok (VNum (ndiv (nadd a b) n2))
-    else
-      do a <- index_num nums (len / 2);
-      Ok (VNum a).
-
-Definition bi_percentile_fixed (args : list value) : outcome value :=
-  do a1 <- arg args 1;
-  do p <- as_number a1;
-  do a0 <- arg args 0;
-  do list <- as_list a0;
-  if negb (in_0_100 p) then Err
-  else
-    do nums <- mapM as_number list;
     if is_empty nums then Err
     else if has_nan nums then Ok (VNum nnan)
     else
       do nums <- sort_pc nums;
-      do len1 <- usize_sub true (len nums) 1;
+      do len1 <- usize_sub overflow_checks (len nums) 1;
       let index := percentile_index p len1 in
       do x <- index_num nums index;
       Ok (VNum x).
+Definition bi_percentile : list value -> outcome value := bi_percentile_gen false.
 
 (* ---------- any all dot ---------- *)
 (* list.iter().any(|v| v.as_bool().unwrap_or(false)) *)
@@ -309,13 +283,6 @@ Definition arity_ok (ar : arity) (n : nat) : bool :=
 Definition checked_call (a : agg) (args : list value) : outcome value :=
   if arity_ok (builtin_arity (agg_builtin a)) (length args) then bi_agg a args else Err.
 
-Definition bi_agg_fixed (a : agg) : list value -> outcome value :=
-  match a with
-  | AMedian => bi_median_fixed | APercentile => bi_percentile_fixed | _ => bi_agg a
-  end.
-Definition checked_call_fixed (a : agg) (args : list value) : outcome value :=
-  if arity_ok (builtin_arity (agg_builtin a)) (length args) then bi_agg_fixed a args else Err.
-
 (* ---------- canonical outcome text (twin of harness/src/s_c15.rs) ---------- *)
 Definition show_outcome (o : outcome value) : string :=
   match o with
@@ -326,11 +293,6 @@ Definition show_outcome (o : outcome value) : string :=
   | Unmodelled => "UNMODELLED"%string
   end.
 
-(* one correspondence case: the outcome of the code as it is; when that is a Panic also the
-   outcome of the repaired code (after "|"), which the implementation is allowed to show instead
-   on inputs of an open known-finding class *)
+(* one correspondence case *)
 Definition show_case (checked : bool) (a : agg) (args : list value) : string :=
-  let o := if checked then checked_call a args else bi_agg a args in
-  if is_panic o then
-    ("PANIC|" ++ show_outcome (if checked then checked_call_fixed a args else bi_agg_fixed a args))%string
-  else show_outcome o.
+  show_outcome (if checked then checked_call a args else bi_agg a args).
